@@ -74,6 +74,7 @@ func runMulti(c MultiCase) (err error, nt bool) {
 	exec.VerifSetRetryPolicy(retry.MaxRetries(retry.Backoff(5*time.Millisecond, 50*time.Millisecond, 2), 5))
 	sys := faultsys.New(2)
 	sys.KeepalivePeriod, sys.KeepaliveTimeout, sys.KeepaliveRpcTimeout = 200*time.Millisecond, 2*time.Second, time.Second
+	sys.Relax()
 	sess := exec.Start(exec.Bigmachine(sys), exec.Parallelism(4))
 	ctx := context.Background()
 	var results []*exec.Result
@@ -87,7 +88,7 @@ func runMulti(c MultiCase) (err error, nt bool) {
 		switch st.K {
 		case "kill":
 			sys.Kill(nil)
-			time.Sleep(2500 * time.Millisecond)
+			time.Sleep(sys.Stretch(2500 * time.Millisecond))
 			continue
 		case "leaf":
 			f = leafFunc
